@@ -200,8 +200,58 @@ def collect(repo):
         sk, ek = start_key(n), end_keys(n)
         if sk is not None and ek is not None and ek[0] == sk:
             date_handlers.append((Chars(n), Chars(sk), Chars(ek[1])))
+    # ---- stage 2: handlers recognised BY THEIR SOURCE as "plain text-construct element": start = `self.push_content(K, attrs_d, T, 1)`,
+    # end = `self.pop_content(K)`, reached directly, through an alias, or through a one-line delegation
+    def cstart(name, depth=0):
+        fn = getattr(M, "_start_" + name, None)
+        if fn is None or depth > 3:
+            return None
+        b = body_of(fn)
+        m = re.fullmatch(r"self\.push_content\('([a-z_]+)', attrs_d, '([a-z/+]+)', 1\)", b)
+        if m:
+            return (m.group(1), m.group(2))
+        m = re.fullmatch(r"self\._start_([A-Za-z_]+)\(attrs_d\)", b)
+        return cstart(m.group(1), depth + 1) if m else None
+
+    def cend(name, depth=0):
+        fn = getattr(M, "_end_" + name, None)
+        if fn is None or depth > 3:
+            return None
+        b = body_of(fn)
+        m = re.fullmatch(r"self\.pop_content\('([a-z_]+)'\)", b)
+        if m:
+            return m.group(1)
+        m = re.fullmatch(r"self\._end_([A-Za-z_]+)\(\)", b)
+        return cend(m.group(1), depth + 1) if m else None
+    content_handlers = []
+    for n in handlers(strict, "_start_"):
+        sk, ek = cstart(n), cend(n)
+        if sk is not None and ek is not None and ek == sk[0]:
+            content_handlers.append((Chars(n), Chars(sk[0]), Chars(sk[1])))
+    # the title handlers are modelled by hand (Model/Mixin.lean: `isTitle` branches); the names that reach them are listed only while
+    # the source of `_start_title` / `_end_title` still has the modelled shape
+    TITLE_START = ("if self.svgOK:\n    return self.unknown_starttag('title', list(attrs_d.items()))\n"
+                   "self.push_content('title', attrs_d, 'text/plain', self.infeed or self.inentry or self.insource)")
+    TITLE_END = "if self.svgOK:\n    return\nvalue = self.pop_content('title')\nif not value:\n    return\nself.title_depth = self.depth"
+
+    def reaches(name, pre, target, depth=0):
+        if name == target:
+            return True
+        fn = getattr(M, pre + name, None)
+        if fn is None or depth > 3:
+            return False
+        m = re.fullmatch(r"self\.%s([A-Za-z_]+)\((?:attrs_d)?\)" % pre, body_of(fn))
+        return reaches(m.group(1), pre, target, depth + 1) if m else False
+    title_handlers = []
+    if hasattr(M, "_start_title") and hasattr(M, "_end_title") and body_of(M._start_title) == TITLE_START and body_of(M._end_title) == TITLE_END:
+        title_handlers = [Chars(n) for n in handlers(strict, "_start_") if reaches(n, "_start_", "title") and reaches(n, "_end_", "title")]
     T["Mixin"] = [
         ("dateElementsL", "List (List Char × List Char × List Char)", date_handlers),
+        ("contentElementsL", "List (List Char × List Char × List Char)", content_handlers),
+        ("titleHandlersL", "List (List Char)", title_handlers),
+        ("canContainRelativeUrisL", "List (List Char)", [Chars(x) for x in sset(M.can_contain_relative_uris)]),
+        ("canContainDangerousMarkupL", "List (List Char)", [Chars(x) for x in sset(M.can_contain_dangerous_markup)]),
+        ("htmlTypesL", "List (List Char)", [Chars(x) for x in sset(M.html_types)]),
         ("namespaces", "List (String × String)", sorted(M.namespaces.items())),
         ("matchNamespaces", "List (String × String)", sorted(M._matchnamespaces.items())),
         ("canBeRelativeUri", "List String", sset(M.can_be_relative_uri)),
